@@ -61,6 +61,7 @@ type Program struct {
 	FnProblems []FnProblem
 	NInstr     int
 	guardSem   *GuardSem
+	sentinel   map[*ssa.Global]bool
 	Notes      []string
 }
 
